@@ -13,6 +13,15 @@ Theorem C07_split_join_escape :
 Proof. exact split_join_escape. Qed.
 Print Assumptions C07_split_join_escape.
 
+(** ... and every other way of quoting: plain characters, backslash + any
+    character, segments in single or double quotes (inside which a backslash
+    still escapes and everything but the closing quote stands for itself),
+    freely mixed within one word. *)
+Theorem C07_split_quoted :
+  forall ws ss, Forall2 quoted ws ss -> Forall (fun w => w <> []) ws -> split (join ss) = ws.
+Proof. exact split_quoted. Qed.
+Print Assumptions C07_split_quoted.
+
 (** The three sources are evaluated as one sequence of uses in the order
     file, environment, command line, by the same rules (the same [use_step]);
     only cardinality counting is off for file and environment, so that a later
@@ -40,3 +49,13 @@ Example C07_nonvacuous :
   let ws := [[97; 32; 98]; [39; 34]; [92]]%N in    (* the words: a-blank-b, quote-doublequote, backslash *)
   Forall (fun w => w <> []) ws /\ split (join (map escape ws)) = ws.
 Proof. split; [repeat constructor; discriminate|vm_compute; reflexivity]. Qed.
+
+Example C07_nonvacuous_quoted :
+  (* the word  a b'c  written as  "a b"\'c  *)
+  quoted [97; 32; 98; 39; 99]%N [34; 97; 32; 98; 34; 92; 39; 99]%N.
+Proof.
+  apply q_open; [right; reflexivity|].
+  apply iq_char; [discriminate|discriminate|]. apply iq_char; [discriminate|discriminate|].
+  apply iq_char; [discriminate|discriminate|]. apply iq_close; [right; reflexivity|].
+  apply q_esc. apply q_plain; [reflexivity|]. apply q_nil.
+Qed.
